@@ -247,6 +247,15 @@ enum OC {
     Erase(usize),
     Image(usize, usize, usize),
     ImageErase(usize, Option<(usize, usize)>),
+    // not issued by the current renderer, understood by the reference screen so that a rewrite of the
+    // renderer in terms of them is judged by what the terminal shows
+    Move(i64, i64),
+    EraseLineRight,
+    EraseLineLeft,
+    EraseLine,
+    EraseScreen,
+    Save,
+    Restore,
     Other(String),
 }
 impl OC {
@@ -259,6 +268,13 @@ impl OC {
             OC::Image(i, r, c) => format!("i{i}.{r}.{c}"),
             OC::ImageErase(i, Some((r, c))) => format!("x{i}.{r}.{c}"),
             OC::ImageErase(i, None) => format!("X{i}"),
+            OC::Move(r, c) => format!("?move{r}.{c}"),
+            OC::EraseLineRight => "?elr".into(),
+            OC::EraseLineLeft => "?ell".into(),
+            OC::EraseLine => "?el".into(),
+            OC::EraseScreen => "?ed".into(),
+            OC::Save => "?save".into(),
+            OC::Restore => "?restore".into(),
             OC::Other(s) => format!("?{s}"),
         }
     }
@@ -275,6 +291,13 @@ fn canon(world: &World, cmd: &TerminalCommand) -> OC {
         TerminalCommand::EraseChars(n) => OC::Erase(*n),
         TerminalCommand::Image(i, p) => OC::Image(world.image_id(i), p.row, p.col),
         TerminalCommand::ImageErase(i, p) => OC::ImageErase(world.image_id(i), p.map(|p| (p.row, p.col))),
+        TerminalCommand::CursorMove { row, col } => OC::Move(*row as i64, *col as i64),
+        TerminalCommand::EraseLineRight => OC::EraseLineRight,
+        TerminalCommand::EraseLineLeft => OC::EraseLineLeft,
+        TerminalCommand::EraseLine => OC::EraseLine,
+        TerminalCommand::EraseScreen => OC::EraseScreen,
+        TerminalCommand::CursorSave => OC::Save,
+        TerminalCommand::CursorRestore => OC::Restore,
         other => OC::Other(format!("{other:?}").chars().filter(|c| c.is_ascii_alphanumeric()).take(24).collect()),
     }
 }
@@ -337,10 +360,11 @@ struct Scr {
     cur: (usize, usize),
     face: usize,
     place: BTreeMap<(usize, usize), usize>,
+    saved: (usize, usize),
 }
 impl Scr {
     fn blank(h: usize, w: usize) -> Scr {
-        Scr { h, w, grid: vec![SC::G(32, 0); h * w], cur: (0, 0), face: 0, place: BTreeMap::new() }
+        Scr { h, w, grid: vec![SC::G(32, 0); h * w], cur: (0, 0), face: 0, place: BTreeMap::new(), saved: (0, 0) }
     }
     fn get(&self, r: usize, c: usize) -> Option<SC> {
         if r < self.h && c < self.w { Some(self.grid[r * self.w + c]) } else { None }
@@ -398,6 +422,29 @@ impl Scr {
                 }
             }
             OC::ImageErase(i, None) => self.place.retain(|_, v| v != i),
+            OC::Move(dr, dc) => {
+                let r = (self.cur.0 as i64 + dr).clamp(0, self.h.max(1) as i64 - 1) as usize;
+                let c = (self.cur.1 as i64 + dc).clamp(0, self.w.max(1) as i64 - 1) as usize;
+                self.cur = (r, c);
+            }
+            OC::EraseLineRight | OC::EraseLineLeft | OC::EraseLine | OC::EraseScreen => {
+                let (r, c) = self.cur;
+                let face = self.face;
+                let w = self.w;
+                let rows = if *cmd == OC::EraseScreen { 0..self.h } else { r..(r + 1).min(self.h) };
+                for row in rows {
+                    let (a, b) = match cmd {
+                        OC::EraseLineRight => (c.min(w), w),
+                        OC::EraseLineLeft => (0, (c + 1).min(w)),
+                        _ => (0, w),
+                    };
+                    if a < b {
+                        self.overwrite(row, a, b, |_| SC::G(32, face));
+                    }
+                }
+            }
+            OC::Save => self.saved = self.cur,
+            OC::Restore => self.cur = self.saved,
             OC::Other(s) => return Err(format!("unexpected command {s}")),
         }
         Ok(())
@@ -692,6 +739,7 @@ enum Class {
     ImagesPlaced, // images, well placed by construction
     WidePlaced,   // images + wide characters, well placed by construction
     Free,         // anything anywhere
+    Kept,         // the same images frame after frame, characters and blanks around them change
 }
 
 fn random_cell(world: &World, rng: &mut Rng, class: Class) -> u8 {
@@ -778,13 +826,23 @@ fn random_surface(world: &World, rng: &mut Rng, h: usize, w: usize, class: Class
 fn random_hist(world: &World, rng: &mut Rng) -> (Hist, Class) {
     let h = 1 + rng.below(5) as usize;
     let w = 1 + rng.below(8) as usize;
-    let class = match rng.below(10) {
+    let class = match rng.below(12) {
         0 => Class::Narrow,
         1 | 2 => Class::Wide,
         3 | 4 => Class::ImagesPlaced,
         5 | 6 | 7 => Class::WidePlaced,
+        8 | 9 => Class::Kept,
         _ => Class::Free,
     };
+    // images that stay where they are for the whole history (class Kept)
+    let mut base: Vec<u8> = vec![0; h * w];
+    if class == Class::Kept && h * w > 0 {
+        for _ in 0..1 + rng.below(2) {
+            let q = rng.below((h * w) as u64) as usize;
+            base[q] = (world.n_chars + (rng.below(3) as usize) * world.faces.len() + rng.below(3) as usize) as u8;
+        }
+        repair(world, h, w, &mut base);
+    }
     let nsteps = 1 + rng.below(8) as usize;
     let clear0 = rng.chance(1, 2);
     let init = if clear0 && rng.chance(2, 3) {
@@ -803,7 +861,19 @@ fn random_hist(world: &World, rng: &mut Rng) -> (Hist, Class) {
     for i in 0..nsteps {
         let k = rng.below(12);
         let step = if i + 1 == nsteps || k < 8 {
-            let s = random_surface(world, rng, h, w, class, prev.as_ref());
+            let mut s = random_surface(world, rng, h, w, if class == Class::Kept { Class::Wide } else { class }, prev.as_ref());
+            if class == Class::Kept {
+                // blanks in all faces are frequent, the images of `base` are always there
+                for q in 0..h * w {
+                    if rng.chance(1, 3) {
+                        s[q] = rng.below(3) as u8;
+                    }
+                    if base[q] != 0 && (rng.chance(9, 10) || world.img_of(base[q]).is_none()) {
+                        s[q] = base[q];
+                    }
+                }
+                repair(world, h, w, &mut s);
+            }
             prev = Some(s.clone());
             Step::Frame(s)
         } else if k < 9 {
@@ -862,6 +932,16 @@ fn corner_cases(world: &World) -> Vec<Hist> {
         res.push(Hist { h: 1, w, clear0, init: None, steps: vec![frame(1, w, &[(0, 0, sym(4, 0)), (0, 2, sym(5, 0))]), frame(1, w, &[(0, 1, sym(4, 0)), (0, 3, sym(5, 0))]), Step::Clear, frame(1, w, &[(0, 0, sym(4, 2)), (0, 2, sym(1, 2))])] });
         // images: at the origin, moved, replaced, glyph, erased by clear
         res.push(Hist { h: 3, w: 6, clear0, init: None, steps: vec![frame(3, 6, &[(0, 0, img(1, 1))]), frame(3, 6, &[(1, 2, img(1, 1))]), frame(3, 6, &[(1, 2, img(0, 2)), (0, 0, gly(1))]), Step::Clear, frame(3, 6, &[(0, 0, gly(1)), (2, 1, sym(4, 0))]), Step::Recreate, frame(3, 6, &[(2, 4, gly(0))])] });
+        // an unchanged two-row image in a non-default face; blanks in other faces are painted left of it
+        for f in 0..3 {
+            for g in 0..3 {
+                res.push(Hist { h: 3, w: 6, clear0, init: None, steps: vec![
+                    frame(3, 6, &[(1, 0, sym(1, 0)), (0, 1, img(1, f))]),
+                    frame(3, 6, &[(1, 0, sym(0, g)), (0, 1, img(1, f))]),
+                    frame(3, 6, &[(0, 0, sym(0, g)), (1, 0, sym(0, f)), (0, 1, img(1, f)), (0, 4, sym(0, g)), (1, 4, sym(0, g)), (1, 5, sym(0, g))]),
+                ] });
+            }
+        }
         // ill-placed: image overhanging the bottom edge, overlapping images, wide character cut by an image
         res.push(Hist { h: 2, w: 4, clear0, init: None, steps: vec![frame(2, 4, &[(1, 2, img(1, 0))]), blank(2, 4)] });
         res.push(Hist { h: 3, w: 6, clear0, init: None, steps: vec![frame(3, 6, &[(0, 0, img(1, 0)), (1, 1, img(1, 1))]), frame(3, 6, &[(1, 1, img(1, 1))]), blank(3, 6)] });
@@ -990,7 +1070,7 @@ fn main() {
         ctx.one(&h, "corner");
     }
     let mut rng = Rng::new(cfg.seed);
-    let n = if cfg.thorough { 200_000 } else { 2_000 };
+    let n = if cfg.thorough { 200_000 } else { 4_000 };
     for _ in 0..n {
         let (h, class) = random_hist(&world, &mut rng);
         let label = match class {
@@ -999,6 +1079,7 @@ fn main() {
             Class::ImagesPlaced => "images-placed",
             Class::WidePlaced => "images+wide-placed",
             Class::Free => "free",
+            Class::Kept => "kept-images",
         };
         ctx.one(&h, label);
     }
